@@ -684,6 +684,10 @@ func (m *Machine) now() *Term {
 		m.clock = m.freshVar("clock0", SInt, big.NewInt(1_000_000_000_000_000_000), big.NewInt(4_000_000_000_000_000_000))
 		return m.clock
 	}
+	if m.ghost["steadyclock"] != nil {
+		// readings do not drift apart: time passes only through timers, sleeps and vAdvanceClock
+		return m.clock
+	}
 	d := m.freshVar("dt", SInt, big.NewInt(0), big.NewInt(1_000_000_000_000_000))
 	m.clock = tAdd(m.clock, d)
 	return m.clock
